@@ -565,9 +565,12 @@ fn do_tree(cx: &mut Ctx, tid: usize, tree: &Tree, pick: &mut dyn FnMut(usize, us
     }
     cx.id += 1;
     cx.prog.mark(cx.id, &format!("listings tree {} {}", tid, tj));
-    let lm = listing_side(&mem, "memfs", mem_ok, &paths, Path::new("/"));
-    let ls = listing_side(&stdfs, "stdfs", std_ok, &paths, &base);
-    cx.out.rec(&json!({"k": "ls", "set": cx.set, "tid": tid, "tree": tj, "rk": rk, "bes": [lm, ls]}));
+    // (the wide tree is about the iterator at scale: the per-path listing record - one predicate set per path - is left to the other sets)
+    if cx.set != "wide" {
+        let lm = listing_side(&mem, "memfs", mem_ok, &paths, Path::new("/"));
+        let ls = listing_side(&stdfs, "stdfs", std_ok, &paths, &base);
+        cx.out.rec(&json!({"k": "ls", "set": cx.set, "tid": tid, "tree": tj, "rk": rk, "bes": [lm, ls]}));
+    }
 
     // traversals
     for (ri, rn) in tree.nodes.iter().enumerate() {
@@ -695,6 +698,28 @@ fn main() {
                 };
                 let extra = vec![vec!["missing".to_string()]];
                 do_tree(&mut cx, 1_000_000 + tid, &tree, &mut pick, &extra);
+            }
+        },
+        "wide" => {
+            // scale: one directory with more than 255 entries (plus a sub-directory and a link to the wide directory), traversed
+            // from the root and from the wide directory under a spread of option combinations
+            if worker == 0 {
+                let s = |v: &[&str]| -> Vec<String> { v.iter().map(|x| x.to_string()).collect() };
+                let mut nodes = vec![Node { p: vec![], k: "dir", t: vec![] }, Node { p: s(&["w"]), k: "dir", t: vec![] }];
+                for i in 0..260 {
+                    nodes.push(Node { p: vec!["w".to_string(), format!("f{:03}", i)], k: "file", t: vec![] });
+                }
+                nodes.push(Node { p: s(&["w", "sub"]), k: "dir", t: vec![] });
+                nodes.push(Node { p: s(&["w", "sub", "x"]), k: "file", t: vec![] });
+                nodes.push(Node { p: s(&["k"]), k: "link", t: s(&["w"]) });
+                let tree = Tree { nodes };
+                let mut pick = |_tid: usize, ri: usize, _tree: &Tree| -> Vec<Opts> {
+                    if ri > 1 {
+                        return vec![];
+                    }
+                    (0..NOPTS).filter(|i| i % 97 == ri * 7).map(opt_at).filter(opt_valid).collect()
+                };
+                do_tree(&mut cx, 2_000_000, &tree, &mut pick, &[]);
             }
         },
         _ => {
